@@ -213,7 +213,14 @@ func modeC06() {
 			if strings.HasPrefix(t.Kind, "sidecar-") {
 				bound = 0
 			}
-			explore(st, p, env, bound, deadline, baseCfg(), func(x *vrt.Exec, o *Outcome) {
+			if t.Kind == "damage-chunk" && os.Getenv("VERIF_C06_D2") != "" && c.Streams == 1 && c.LatencyMs == 0 {
+				bound = 2 // a slow verification hash on the sender needs "demote" plus a later pick
+			}
+			cfg := baseCfg()
+			// damaged data: the sender's background hash of the verification chunk may be slow -
+			// one "demote" keeps it out of the way while the rest of the file goes through
+			cfg.Demote = bound > 0 && (t.Kind == "damage-chunk" || strings.HasPrefix(t.Kind, "shorten") || t.Kind == "delete-data")
+			explore(st, p, env, bound, deadline, cfg, func(x *vrt.Exec, o *Outcome) {
 				checkC06(p, t, x, o)
 				res.Nontrivial(fmt.Sprintf("%s|%s|%x", keyOf(c), t, x.Trace()))
 			})
